@@ -44,10 +44,10 @@ impl AsyncReadableStorageTraits for AsyncOpendalStore {
         if let (Some(size), Some(reader)) = (size?, handle_result_notfound(reader)?) {
             let mut byte_ranges_fetch = Vec::with_capacity(byte_ranges.len());
             for byte_range in byte_ranges {
-                let byte_range_opendal = byte_range.to_range(size);
-                if byte_range_opendal.end > size {
+                if !byte_range.is_valid(size) {
                     return Err(InvalidByteRangeError::new(*byte_range, size).into());
                 }
+                let byte_range_opendal = byte_range.to_range(size);
                 byte_ranges_fetch.push(byte_range_opendal);
             }
             Ok(Some(
